@@ -11,3 +11,16 @@ def register():
     H[('ProtocolVersionMajorMinorBase', 'minor')] = ('int',)
     H[('TlsApplicationDataMessage', 'data')] = ('bytes', 'bytearray')
     H[('COTPConnectionBase', 'class_option')] = ('int',)
+    H[('SshCertSignature', 'signature_data')] = ('bytes', 'bytearray')
+    H[('OpenVpnPacketWrapperTcp', 'payload')] = ('bytes', 'bytearray')
+    for c in ('OpenVpnPacketAckV1', 'OpenVpnPacketHardResetClientV2', 'OpenVpnPacketHardResetServerV2', 'OpenVpnPacketControlV1'):
+        H[(c, 'session_id')] = ('int',)
+        H[(c, 'remote_session_id')] = ('optional', ('int',))
+        H[(c, 'packet_id_array')] = ('list', ('int',))
+        H[(c, 'packet_id')] = ('int',)
+    from cryptoparser.tls.extension import (TlsCertificateStatusType, TlsCertificateStatusRequestResponderIdList,
+                                            TlsCertificateStatusRequestExtensions)
+    H[('TlsHandshakeCertificateStatus', 'status_type')] = ('enum', TlsCertificateStatusType)
+    H[('TlsHandshakeCertificateStatus', 'status')] = ('bytes', 'bytearray')
+    H[('TlsExtensionCertificateStatusRequestClient', 'responder_id_list')] = ('vector', TlsCertificateStatusRequestResponderIdList)
+    H[('TlsExtensionCertificateStatusRequestClient', 'extensions')] = ('vector', TlsCertificateStatusRequestExtensions)
